@@ -28,6 +28,8 @@ def render_output(src: List[dict], out: List[dict]) -> str:
             lines.append(pad + (f"if c{o['n']}:" if src[o["n"] - 1]["h"] else f"s{o['n']}()"))
         elif o["t"] == "r":
             lines.append(pad + f"r{o['n']}()")
+        elif o["t"] == "p":
+            lines.append(pad + "pass")
         else:
             lines.append(pad + f"a{o['n']}_{o['k']}()")
     return "\n".join(lines) + "\n"
